@@ -1,7 +1,7 @@
 (* Extract.v — extraction of the executable model for the correspondence
    driver.  ExtrOcamlBasic only: bool, option, unit, list, prod, sumbool map
    to their OCaml counterparts; N, Z, positive, nat stay Coq datatypes. *)
-From Nop Require Import Codec Spec Fungible Calls SipHash Endian Objects Rpc.
+From Nop Require Import Codec Spec Fungible Calls SipHash Endian Objects Rpc Threads.
 Require Extraction.
 Require ExtrOcamlBasic.
 Extraction Blacklist List String Int.
@@ -14,6 +14,7 @@ Extraction "nopmodel.ml"
   bounded_read_padding bounded_write_padding b_make b_inner b_index b_size
   inst_rops inst_wops inst_make
   dispatch send_request get_return lookup
+  trun view empty_store
   N.of_nat N.to_nat Z.of_N Z.to_N Z.of_nat Z.to_nat N.add N.mul N.div N.modulo N.eqb N.ltb
   Z.add Z.mul Z.opp Z.div Z.modulo Z.eqb Z.ltb Z.sub N.sub Pos.of_nat.
 Cd "..".
